@@ -149,6 +149,7 @@ def one_case(rng, res):
         ch, desc, hooks, failed = gen_case(rng, root)
         scn = scen.build(ch, root, rng)
         scn.meta["inspect_timeout"] = timeout_for(ch)
+        scn.meta["persist_links"] = desc["persist_inspection_links"] = rng.random() < 0.5
         apply_hooks(scn, ch, hooks, rng)
         any_insp = any(n.inspections for n, _p in scen.walk(ch))
         i, m, _ = vcommon.run_case(scn, desc, res, any_insp)
